@@ -4,9 +4,12 @@ package nodenumaresource
 
 import (
 	"fmt"
+	"runtime"
 	"sort"
 	"strconv"
 	"strings"
+	"sync"
+	"sync/atomic"
 	"testing"
 
 	corev1 "k8s.io/api/core/v1"
@@ -472,6 +475,11 @@ func TestVerifC06Hist(t *testing.T) {
 		if r == nil {
 			continue
 		}
+		if idx%6 == 5 { // every 6th case: goroutines (informer Updates of running pods || the scheduling goroutine)
+			c06StressCase(h, r)
+			h.End()
+			continue
+		}
 		topo, dims := c06Topo(r, 48)
 		cpc := dims[3]
 		var all []int
@@ -733,6 +741,9 @@ func TestVerifC06Hist(t *testing.T) {
 					}
 					if len(hint) == 0 {
 						hint = []int{r.Intn(numNodes)}
+					}
+					if len(hint) > 12 { // sort.Slice is the (stable) insertion sort only up to 12 elements; the model is that sort
+						hint = hint[:12]
 					}
 					mask, _ := bitmask.NewBitMask(hint...)
 					affinity = topologymanager.NUMATopologyHint{NUMANodeAffinity: mask}
@@ -1043,7 +1054,202 @@ func TestVerifC06Hist(t *testing.T) {
 		"(1-4 sockets x 1-4 nodes x 1-8 cores x 1/2/4 threads, <= 48 CPUs), sharing limit 1-3, reserved CPUs; ops: real Allocate " +
 		"(all bind/exclusive policies, required or not, with/without NUMA hint) followed by Update, foreign Update (sometimes " +
 		"not drawn from the free set), duplicate add, Release (known/unknown), queries. non-trivial = at least one real " +
-		"Allocate ran and a pod is live at the end")
+		"Allocate ran and a pod is live at the end. Every 6th case is a goroutine stress case: a node filled to ~2/3 through " +
+		"Allocate+Update, then 3 informer goroutines re-asserting the running pods (Update) while the scheduling goroutine " +
+		"allocates 3-8 more pods; ledger read at quiescence; non-trivial = some pod was allocated during the race")
+}
+
+// c06StressCase: "however allocations and releases interleave", with goroutines.  Running pods are re-asserted by K
+// informer goroutines (resourceManager.Update with the allocation the ledger already records) while ONE scheduling
+// goroutine (scheduling cycles are serialized) does Allocate + Update for new pods on the same node.  The ledger is read
+// only at quiescence; oracle = shadow ledger (C06:over-shared, C06:ledger-refcount) and, per allocation, "only CPUs that
+// were free for this pod".  The model sees the scheduling goroutine's steps only: the informer Updates must be no-ops.
+func c06StressCase(h *vHarness, r *vRand) {
+	topo, dims := c06Topo(r, 32)
+	cpc := dims[3]
+	var all []int
+	for c := range topo.CPUDetails {
+		all = append(all, c)
+	}
+	sort.Ints(all)
+	maxRef := 1
+	if r.Chance(1, 5) {
+		maxRef = 2
+	}
+	capCell := map[int]int64{}
+	var numaRes []NUMANodeResource
+	for nd := 0; nd < topo.NumNodes; nd++ {
+		capCell[nd*16] = int64(topo.CPUsPerNode()) * 1000
+		numaRes = append(numaRes, NUMANodeResource{Node: nd, Resources: corev1.ResourceList{corev1.ResourceCPU: c06Milli(capCell[nd*16])}})
+	}
+	tom := NewTopologyOptionsManager()
+	tom.UpdateTopologyOptions(c06Node, func(o *TopologyOptions) {
+		o.CPUTopology = topo
+		o.MaxRefCount = maxRef
+		o.NUMANodeResources = numaRes
+	})
+	strategy := schedulingconfig.NUMAMostAllocated
+	if r.Bool() {
+		strategy = schedulingconfig.NUMALeastAllocated
+	}
+	rm := &resourceManager{numaAllocateStrategy: strategy, topologyOptionsManager: tom, nodeAllocations: map[string]*NodeAllocation{}}
+	node := &corev1.Node{ObjectMeta: metav1.ObjectMeta{Name: c06Node}}
+	plugin := &Plugin{resourceManager: rm, topologyOptionsManager: tom}
+	// one exclusive policy for all pods of the case: the per-CPU policy marker is last-writer-wins, so with mixed policies
+	// and a sharing limit > 1 the dump would depend on the goroutine schedule
+	excl := c06ExclPolicies[r.Intn(4)]
+	{
+		var sb strings.Builder
+		fmt.Fprintf(&sb, "cfg %d %d 0 1 %d %d %d %d %d", maxRef, vB(strategy == schedulingconfig.NUMAMostAllocated),
+			topo.NumCPUs, topo.NumCores, topo.NumNodes, topo.NumSockets, len(all))
+		for _, c := range all {
+			info := topo.CPUDetails[c]
+			fmt.Fprintf(&sb, " %d %d %d %d", c, info.CoreID, info.NodeID, info.SocketID)
+		}
+		fmt.Fprintf(&sb, " 0 %d", len(capCell))
+		for _, k := range c06SortedCellKeys(capCell) {
+			fmt.Fprintf(&sb, " %d %d", k, capCell[k])
+		}
+		h.Op("%s", sb.String())
+	}
+	h.Tag("hist:stress")
+	h.Tag(fmt.Sprintf("stress-maxref:%d", maxRef))
+
+	shadow := map[int][]int{}
+	var running []*PodAllocation
+	nextUID := 1
+	held := func() map[int]int {
+		m := map[int]int{}
+		for _, cs := range shadow {
+			for _, c := range cs {
+				m[c]++
+			}
+		}
+		return m
+	}
+	// one scheduling step (Allocate, then Update) on the calling goroutine
+	schedule := func(maxCPUs int, phase string) bool {
+		uid := nextUID
+		nextUID++
+		bind := c06BindPolicies[r.Intn(3)]
+		required := r.Chance(1, 4) && bind != schedulingconfig.CPUBindPolicyDefault
+		ncpu := r.Range(1, maxCPUs)
+		if bind == schedulingconfig.CPUBindPolicyFullPCPUs && !r.Chance(1, 6) {
+			ncpu = (ncpu + cpc - 1) / cpc * cpc
+		}
+		requests := corev1.ResourceList{corev1.ResourceCPU: c06Milli(int64(ncpu) * 1000)}
+		state := &preFilterState{requestCPUBind: true, requests: requests, numCPUsNeeded: ncpu, preferredCPUExclusivePolicy: excl}
+		if required {
+			state.requiredCPUBindPolicy = bind
+		} else {
+			state.preferredCPUBindPolicy = bind
+		}
+		hm := held()
+		pod := &corev1.Pod{ObjectMeta: metav1.ObjectMeta{UID: types.UID(strconv.Itoa(uid)), Name: "p", Namespace: "d"}}
+		var alloc *PodAllocation
+		ok := false
+		if h.Guard(func() {
+			options, err := plugin.getResourceOptions(state, node, true, topologymanager.NUMATopologyHint{}, tom.GetTopologyOptions(c06Node))
+			if err != nil {
+				return
+			}
+			a, st := tryAllocateFromNode(rm, nil, &nodeReservationRestoreStateData{}, options, pod, node)
+			if st.IsSuccess() && a != nil {
+				alloc, ok = a, true
+			}
+		}) {
+			h.Fail("C06:allocate-panic", "Allocate panicked (%s)", phase)
+			return false
+		}
+		h.Op("alloc %d %d %d %d 1 %d 0 0 1 0 %d", uid, c06Excl(excl), c06BindEnum(bind), vB(required), ncpu, ncpu*1000)
+		h.Tag(fmt.Sprintf("stress-%s-ok:%d", phase, vB(ok)))
+		if !ok {
+			h.Obs("alloc 0")
+			return false
+		}
+		got := c06SortedCPUs(alloc.CPUSet)
+		h.Obs("alloc 1 %s 0", c06Blk(got))
+		if len(got) != ncpu {
+			h.Fail("C06:cpuset-count", "%s: requested %d CPUs, got %d: %v", phase, ncpu, len(got), got)
+		}
+		for _, c := range got {
+			if hm[c] >= maxRef {
+				h.Fail("C06:cpuset-not-free", "%s: cpu %d is held by %d running pod(s) (sharing limit %d) and was handed out again", phase, c, hm[c], maxRef)
+				break
+			}
+		}
+		rm.Update(c06Node, alloc)
+		h.Op("commitq")
+		shadow[uid] = got
+		running = append(running, alloc)
+		return true
+	}
+	// phase 1 (sequential): fill the node to ~2/3
+	for i := 0; i < 10; i++ {
+		used := 0
+		for _, cs := range shadow {
+			used += len(cs)
+		}
+		if used*3 >= len(all)*2*maxRef {
+			break
+		}
+		schedule(4, "fill")
+	}
+	// phase 2: K informer goroutines re-assert the running pods while this goroutine schedules new pods
+	informed := append([]*PodAllocation(nil), running...)
+	var stop int32
+	var wg sync.WaitGroup
+	k := 3
+	if len(informed) == 0 {
+		k = 0
+	}
+	for g := 0; g < k; g++ {
+		wg.Add(1)
+		go func(g int) {
+			defer wg.Done()
+			defer func() { _ = recover() }()
+			for i := g; atomic.LoadInt32(&stop) == 0; i++ {
+				rm.Update(c06Node, informed[i%len(informed)])
+			}
+		}(g)
+	}
+	m := r.Range(3, 8)
+	succ := 0
+	for i := 0; i < m; i++ {
+		for y := 0; y < 50; y++ {
+			runtime.Gosched()
+		}
+		if schedule(3, "race") {
+			succ++
+		}
+	}
+	atomic.StoreInt32(&stop, 1)
+	wg.Wait()
+	// quiescence
+	h.Op("dump")
+	refs, _, avail := c06DumpLedger(h, rm)
+	want := held()
+	for _, c := range all {
+		if refs[c] != want[c] {
+			h.Fail("C06:ledger-refcount", "at quiescence: cpu %d refcount %d but %d live pods hold it", c, refs[c], want[c])
+			break
+		}
+	}
+	for _, c := range all {
+		if refs[c] > maxRef || want[c] > maxRef {
+			h.Fail("C06:over-shared", "at quiescence: cpu %d is held by %d pods (ledger refcount %d), sharing limit %d", c, want[c], refs[c], maxRef)
+			break
+		}
+	}
+	for _, c := range avail {
+		if want[c] >= maxRef {
+			h.Fail("C06:avail-wrong", "at quiescence: cpu %d reported available but held by %d pods", c, want[c])
+			break
+		}
+	}
+	if succ > 0 && len(informed) > 0 {
+		h.Nontrivial()
+	}
 }
 
 func c06SortedCellKeys(m map[int]int64) []int {
